@@ -7,7 +7,7 @@ CONSTANTS
   FieldSet = "core"
   Entries <- EntriesUntrusted
   MaxOps = 2
-  Heavy <- Heavy3
+  Heavy <- Heavy2
   HeavyAfter <- NoOps
   Muts <- NoOps
 INVARIANTS TypeOK NoPanic WellOrdered Emit
